@@ -4,8 +4,8 @@
    hook-exported key sets of the two decoder tables). *)
 From V.lib Require Import Base.
 From V.c04 Require Import C04Model C04AsmModel C04ContainerProofs.
-From V.c03 Require Import C03Model C03Spec C03Registry C03Proofs C03CanonProofs C03LeafModel C03LeafProofs C03LeafBoxProofs C03LeafInstProofs C03StsdProofs C03VseProofs C03LeafTruncProofs C03LeafEncProofs C03DelegateProofs C03DelegateExtProofs C03FactsDefs C03Facts C03ClassProofs C03SencPassModel C03SencPassProofs C03EncHistModel C03EncHistProofs.
-From V.c02 Require C02AggModel C02AggExamples C02AggFragProofs C02AggFileProofs.
+From V.c03 Require Import C03Model C03Spec C03Registry C03Proofs C03CanonProofs C03LeafModel C03LeafProofs C03LeafBoxProofs C03LeafInstProofs C03StsdProofs C03VseProofs C03LeafTruncProofs C03LeafEncProofs C03DelegateProofs C03DelegateExtProofs C03FactsDefs C03Facts C03ClassProofs C03SencPassModel C03SencPassProofs C03EncHistModel C03EncHistProofs C03BodyFnProofs.
+From V.c02 Require C02AggModel C02AggExamples C02AggFragProofs C02AggFileProofs C02AggSencModel C02AggSencProofs.
 Open Scope N_scope.
 
 (* Encode to an io.Writer and EncodeSW to a slice writer: identical bytes or both fail, for every container tree and
@@ -323,13 +323,14 @@ Print Assumptions C03_sprog_embeds.
      - delegating (shape checked by the extractor) with a position-relative SR decoder: C03_delegating_pair_agree applies; or
        delegating and named: DecodeVisualSampleEntry (C03_vse_pair_agree_canonical) / the explored list
        c03_delegating_nonrelative_explored = esds evte meta sgpd stpp trep wvtt;
-     - a container twin (same text around DecodeContainerChildren / ...SR; KCont of C03_decode_agree_canonical), or one whose SR
-       decoder also returns sr.AccError(): named, c03_twin_accerr_explored = edts sinf stbl;
+     - a container twin (same text around DecodeContainerChildren / ...SR; KCont of C03_decode_agree_canonical), also when its SR
+       decoder returns sr.AccError() instead of nil (edts sinf stbl: C03_twin_accerr_canonical);
      - moov / moof: the reader path reads the body and runs the text of the SR decoder on it, KContBody with the extracted flag;
-     - a pure twin (neither decoder touches its reader, same text: emeb, vtte) or a raw-body pair (readBoxBody / ReadBytes(payloadLen)
-       + AccError into the same box: free, skip, cdat; the opaque leaf std_r / std_sr of C03_std_canon_leaf);
+     - a pure twin (neither decoder touches its reader, same text: emeb, vtte), a raw-body pair (readBoxBody / ReadBytes(payloadLen)
+       + AccError into the same box: free, skip, cdat, styp; the opaque leaf std_r / std_sr of C03_std_canon_leaf) or a body-function
+       pair (the same pure function of the body bytes on both paths: avcC hvcC av1C dac3 dec3 mdat; C03_bodyfn_pair_agree);
      - separately written and named: c03_separate_proved = trun senc mdat stsd mfhd tfdt (their pair theorems above) or
-       c03_separate_explored = audio sample entry, av1C avcC dac3 dec3 dref hvcC styp vttc.
+       c03_separate_explored = audio sample entry (mp4a enca ac-3 ec-3), dref, vttc.
    A reader-path decoder that is rewritten by hand leaves its class and breaks this theorem until it gets a pair model. *)
 Theorem C03_all_pairs_classified :
   forall k, In k keys_decoders ->
@@ -337,9 +338,9 @@ Theorem C03_all_pairs_classified :
       match df_class f with
       | CDelegating => df_relative f = true
                        \/ In (df_r f) c03_delegating_nonrelative_proved \/ In (df_r f) c03_delegating_nonrelative_explored
-      | CContainerTwin => df_accerr f = false \/ In (df_r f) c03_twin_accerr_explored
+      | CContainerTwin => True
       | CContainerBody => std_kind k = KContBody (df_accerr f)
-      | CPureTwin | CRawBody => std_kind k = KLeaf
+      | CPureTwin | CRawBody | CBodyFn => std_kind k = KLeaf
       | CSeparate => In (df_r f) c03_separate_proved \/ In (df_r f) c03_separate_explored
       end.
 Proof. exact all_pairs_classified. Qed.
@@ -362,6 +363,7 @@ Theorem C03_all_encoders_classified :
   forall f, In f c03_encoder_facts ->
     match ef_class f with
     | EDelegating | EContainer | EHeader => True
+    | EPrelude => In (ef_type f) c03_enc_prelude_proved
     | ETwin => In (ef_type f) c03_enc_twin_proved \/ In (ef_type f) c03_enc_twin_explored
     | ESeparate => In (ef_type f) c03_enc_separate_proved \/ In (ef_type f) c03_enc_separate_explored
     end.
@@ -460,6 +462,56 @@ Theorem C03_encode_stale_offset_refuted :
   first_doff (snd (run_hhist hfrag_agg_stale (C02AggExamples.ex_frag false) stale_hist_sw)) = Some 133%Z.
 Proof. exact stale_offset_refuted. Qed.
 Print Assumptions C03_encode_stale_offset_refuted.
+
+(* ---- third round: shrinking the explored-only lists ----
+   BODY-FUNCTION pairs (class CBodyFn, found by the extractor: avcC hvcC av1C dac3 dec3, and mdat): reader path = readBoxBody, then a pure
+   function F of the body; SR path = the same F of sr.ReadBytes(hdr.payloadLen()), with or without a test of the accumulated error
+   in between.  With the body present - wherever it sits in the caller's buffer, whatever follows - the SR decoder returns what the
+   reader-path decoder returns, stands at the end of the body, and has no accumulated error; with the body cut short the variant WITH
+   the test fails (as readBoxBody does), the variant without it hands F the empty slice and leaves the error set. *)
+Theorem C03_bodyfn_pair_agree : forall A (F : list N -> res A) check_acc body pre post, (zlen (pre ++ body ++ post) < two63)%Z ->
+  bodyfn_sr F check_acc (zlen body) (mkR (pre ++ body ++ post) (zlen pre) false)
+  = match bodyfn_r F body with
+    | Ok a => Ok (a, mkR (pre ++ body ++ post) (zlen pre + zlen body)%Z false)
+    | Err => Err | Panic => Panic | OutOfFuel => OutOfFuel
+    end.
+Proof. exact (fun A F => bodyfn_pair_agree F). Qed.
+Print Assumptions C03_bodyfn_pair_agree.
+
+Theorem C03_bodyfn_short : forall A (F : list N -> res A) check_acc n buf pos, (0 <= pos)%Z -> (zlen buf - pos < n)%Z -> (zlen buf < two63)%Z ->
+  bodyfn_sr F check_acc n (mkR buf pos false) =
+  if check_acc then Err else match F [] with Ok a => Ok (a, mkR buf pos true) | Err => Err | Panic => Panic | OutOfFuel => OutOfFuel end.
+Proof. exact (fun A F => bodyfn_short F). Qed.
+Print Assumptions C03_bodyfn_short.
+
+(* container twins whose SR decoder ends `return b, sr.AccError()` (edts sinf stbl): on a canonical box, at ANY position of the
+   caller's buffer (so at any nesting depth) and whatever follows, the test never fires: the decoder is the KCont decoder of
+   C03_decode_agree_canonical, and the reader is left without accumulated error at the end of the box *)
+Theorem C03_twin_accerr_canonical : forall ld c, cwf ld c -> fits c ->
+  forall fuel sp pre post cst, (zlen (pre ++ cenc c ++ post) < two63)%Z -> (sp + lenN (cenc c) < 18446744073709551616)%N ->
+    twin_accerr_sr ld fuel sp (sr_at (pre ++ cenc c ++ post) (zlen pre) cst) = dec_box_sr ld fuel sp (sr_at (pre ++ cenc c ++ post) (zlen pre) cst) /\
+    (fst (dec_box_sr ld fuel sp (sr_at (pre ++ cenc c ++ post) (zlen pre) cst)) = OutOfFuel \/
+     (fst (dec_box_sr ld fuel sp (sr_at (pre ++ cenc c ++ post) (zlen pre) cst)) = Ok (erase c) /\
+      rerr (sr (snd (dec_box_sr ld fuel sp (sr_at (pre ++ cenc c ++ post) (zlen pre) cst)))) = false)).
+Proof. exact twin_accerr_canonical. Qed.
+Print Assumptions C03_twin_accerr_canonical.
+
+(* SencBox.Encode = `s.setSubSamplesUsedFlag(); <delegation pattern>` and EncodeSW starts with the same call (class EPrelude): same final
+   state and same bytes for EVERY idempotent prelude, provided Size() after the prelude covers what is written; instantiated with the C02
+   model of setSubSamplesUsedFlag, which is idempotent (C02AggSencProofs.senc_setflag_idem) *)
+Theorem C03_enc_prelude_agree :
+  (forall S (p : S -> S) size out cap s, (forall x, p (p x) = p x) ->
+     (forall bs, out (p s) = Some bs -> (N.of_nat (length bs) <= size (p s))%N /\ (N.of_nat (length bs) <= cap)%N) ->
+     enc_prelude_w p size out s = enc_prelude_sw p cap out s) /\
+  (forall size out cap s,
+     (forall bs, out (C02AggSencModel.senc_setflag s) = Some bs ->
+        (N.of_nat (length bs) <= size (C02AggSencModel.senc_setflag s))%N /\ (N.of_nat (length bs) <= cap)%N) ->
+     enc_prelude_w C02AggSencModel.senc_setflag size out s = enc_prelude_sw C02AggSencModel.senc_setflag cap out s).
+Proof.
+  exact (conj (fun S p size out cap s => enc_prelude_agree p size out cap s)
+              (fun size out cap s H => enc_prelude_agree C02AggSencModel.senc_setflag size out cap s C02AggSencProofs.senc_setflag_idem H)).
+Qed.
+Print Assumptions C03_enc_prelude_agree.
 
 (* ---- non-vacuity ---- *)
 Example ex_tree : ebox :=
